@@ -3,10 +3,11 @@ C11 — emulated compound operations.  Property statements proved so far; the UL
 3Sum/4Sum/mul_add/dot2/FMA are decided by search only (see fav/props/c11.py SEARCHED).
 -/
 import FAVerif.Models.Compound
+import FAVerif.Lemmas.NextProg
 import FAVerif.Generated.C11
 
 namespace FAVerif.Props.C11
-open FAVerif.IR FAVerif.FP FAVerif.Spec FAVerif.Gen.C11
+open FAVerif.IR FAVerif.FP FAVerif.FPQ FAVerif.Spec FAVerif.Gen.C11
 
 /-- Every regenerated program (all variants, float16/32/64) is well formed. -/
 theorem generated_wf : ∀ p ∈ FAVerif.Gen.C11.all, p.2.wf = true := by decide +kernel
@@ -26,6 +27,64 @@ theorem next_constant_value :
     (decode binary32 (cNextBits binary32)).toRat? = some (16777215 / 16777216) ∧
     (decode binary64 (cNextBits binary64)).toRat? = some (9007199254740991 / 9007199254740992) := by
   decide +kernel
+
+/-- **next(x) = nextafter(x, ±∞) for every precision** (p ≥ 2, any emin, ANY round-to-nearest):
+for a normal x = ±k·2^e (2^(p-1) ≤ k < 2^p, e ≥ emin) dividing by c = 1 − 2^-p moves one step away
+from zero and multiplying by c one step toward zero (half a step exactly at a power of two). -/
+theorem next_all_precisions (q : QFmt) (r : ℚ → ℚ) (hr : IsRN q r) (k e : ℤ)
+    (hk1 : 2 ^ (q.p - 1) ≤ k) (hk2 : k < 2 ^ q.p) (he : q.emin ≤ e) :
+    r ((k : ℚ) * 2 ^ e / (1 - 1 / 2 ^ q.p)) = ((k : ℚ) + 1) * 2 ^ e ∧
+    r (-((k : ℚ) * 2 ^ e) / (1 - 1 / 2 ^ q.p)) = -(((k : ℚ) + 1) * 2 ^ e) ∧
+    (2 ^ (q.p - 1) < k → r ((k : ℚ) * 2 ^ e * (1 - 1 / 2 ^ q.p)) = ((k : ℚ) - 1) * 2 ^ e) ∧
+    (2 ^ (q.p - 1) < k → r (-((k : ℚ) * 2 ^ e) * (1 - 1 / 2 ^ q.p)) = -(((k : ℚ) - 1) * 2 ^ e)) ∧
+    (q.emin < e → r ((2 : ℚ) ^ (q.p - 1) * 2 ^ e * (1 - 1 / 2 ^ q.p)) = (2 : ℚ) ^ (q.p - 1) * 2 ^ e - 2 ^ e / 2) :=
+  ⟨next_up_pos hr hk1 hk2 he, next_down_neg hr hk1 hk2 he, fun h => next_down_pos hr h hk2 he,
+   fun h => next_up_neg hr h hk2 he, fun h => next_down_pow2 hr h⟩
+
+/-- The values above really are the neighbours on the float lattice: nothing representable lies
+strictly between k·2^e and (k±1)·2^e. -/
+theorem neighbours (q : QFmt) (k e : ℤ) (z : ℚ) (hz : Rep q z) :
+    (2 ^ (q.p - 1) ≤ k → (k : ℚ) * 2 ^ e < z → ((k : ℚ) + 1) * 2 ^ e ≤ z) ∧
+    (2 ^ (q.p - 1) < k → z < (k : ℚ) * 2 ^ e → z ≤ ((k : ℚ) - 1) * 2 ^ e) :=
+  ⟨fun h1 h2 => succ_is_least h1 hz h2, fun h1 h2 => pred_is_greatest h1 hz h2⟩
+
+/-- **On the regenerated program** (float32 instance; float16/64 have the same nodes by `ties_next`):
+for positive normal x = k·2^e the traced `next(x, up=True)` evaluates, over ℚ with any
+round-to-nearest for binary32's precision, to the successor (k+1)·2^e. -/
+theorem next_up_generated (r : ℚ → ℚ) (q : QFmt) (hq : q.p = 24) (hr : IsRN q r) (k e : ℤ)
+    (hk1 : 2 ^ (q.p - 1) ≤ k) (hk2 : k < 2 ^ q.p) (he : q.emin ≤ e) :
+    next_up_f32.evalQ r [(k : ℚ) * 2 ^ e] = some [((k : ℚ) + 1) * 2 ^ e] ∧
+    next_down_f32.evalQ r [-((k : ℚ) * 2 ^ e)] = some [-(((k : ℚ) + 1) * 2 ^ e)] := by
+  have t := ties_next
+  have tu : next_up_f32.nodes = nextProg binary32 true ∧ next_up_f32.outs = [6] := by
+    have := t.1 next_up_f32 (by simp)
+    have hf : next_up_f32.fmt = binary32 := by decide
+    rw [hf] at this; exact this
+  have td : next_down_f32.nodes = nextProg binary32 false ∧ next_down_f32.outs = [6] := by
+    have := t.2.1 next_down_f32 (by simp)
+    have hf : next_down_f32.fmt = binary32 := by decide
+    rw [hf] at this; exact this
+  have hfu : next_up_f32.fmt = binary32 := by decide
+  have hfd : next_down_f32.fmt = binary32 := by decide
+  have hc : (decode binary32 (cNextBits binary32)).toRat? = some (16777215 / 16777216) := next_constant_value.2.1
+  have hc0 : (16777215 / 16777216 : ℚ) ≠ 0 := by norm_num
+  have hcq : (16777215 / 16777216 : ℚ) = 1 - 1 / 2 ^ q.p := by rw [hq]; norm_num
+  have hexp : binary32.expMax ≠ 0 := by decide
+  have hxpos : (0 : ℚ) < (k : ℚ) * 2 ^ e := by
+    have : (0 : ℤ) < 2 ^ (q.p - 1) := by positivity
+    have hk : (0 : ℚ) < k := by exact_mod_cast lt_of_lt_of_le this hk1
+    have := two_zpow_pos e
+    positivity
+  constructor
+  · unfold Prog.evalQ
+    rw [tu.1, tu.2, hfu, NextProg.evalQ_nextProg binary32 binary32 r _ _ true hc hc0 hexp]
+    simp only [if_true, hxpos]
+    rw [hcq, next_up_pos hr hk1 hk2 he]
+  · unfold Prog.evalQ
+    rw [td.1, td.2, hfd, NextProg.evalQ_nextProg binary32 binary32 r _ _ false hc hc0 hexp]
+    have : -((k : ℚ) * 2 ^ e) < 0 := by linarith
+    simp only [Bool.false_eq_true, if_false, this, if_true]
+    rw [hcq, next_down_neg hr hk1 hk2 he]
 
 /-- Sample-free sanity of the bit-exact model on the tied program (powers of two and their
 neighbours, float32): next up of 1.0 is 1.0+ulp, next down of 1.0 is 1.0-ulp/2. -/
